@@ -106,3 +106,9 @@ Definition success_keeps_dbin (c : calc) (din dout : db) : bool :=
 Definition stage_atomic (c : calc) (din dout : db) : bool :=
   forallb (fun fs => let '(ok, s) := calc_run c (init_st din dout false) fs 1000%nat in
                      negb ok && db_eqb (s_in s) din && db_eqb (s_out s) dout) [1; 2; 3].
+
+(* CalcKriging whose _postprocess returns for a single target before giving the coordinate locators back (seeded change C19_2) *)
+Definition kriging_skipped_restore (c : cfg) (gout : bool) : calc :=
+  mkcalc (g_nc c) [] (kriging_check c gout) (kriging_pre c gout) [OBody 3]
+         (OClean 2 :: (if 0 <=? g_single c then [] else tl (kriging_post c)))
+         (rollback_std c (g_dgm c)).
